@@ -57,6 +57,20 @@ class CFG:
                 elif tk == 'SwitchStmt':
                     label = (bid, ('case', s))
                 self.succ[last].append((self.block_in[s], label))
+        # Exceptional flow is not modelled by clang's CFG (EH edges off): the blocks that dispatch to catch
+        # handlers have no predecessor. Make them successors of the function entry, i.e. assume a handler
+        # may be entered at any time: handlers then have no dominators from the try body (conservative for
+        # must-dominate rules) and are visible to reachability from the entry.
+        self.try_blocks = []
+        haspred = set()
+        for bid, b in self.blocks.items():
+            for s in b['succ']:
+                if s is not None:
+                    haspred.add(s)
+        for bid, b in self.blocks.items():
+            if b.get('tk') == 'CXXTryStmt' and bid not in haspred and bid != self.entry_block:
+                self.try_blocks.append(bid)
+                self.succ[self.block_in[self.entry_block]].append((self.block_in[bid], ('eh', bid)))
         self.pred = [[] for _ in self.V]
         for v, ss in enumerate(self.succ):
             for (w, lab) in ss:
@@ -86,9 +100,30 @@ class CFG:
     def has_vertex(self, node):
         return bool(self.of_node.get(node.i))
 
+    def handler_entry(self, pred):
+        """entry vertex of the catch handler whose CXXCatchStmt node satisfies pred"""
+        for bid, b in self.blocks.items():
+            lb = b.get('label')
+            if lb is not None:
+                n = Node(self.fn, lb)
+                if n.k == 'CXXCatchStmt' and pred(n):
+                    return self.block_in[bid]
+        return None
+
     def cond_node(self, block):
+        """the expression whose value decides this block's branch. For `if (a && b)` clang reports the
+        whole `a && b` as the condition of the block that ends in the IfStmt, but that block is only
+        entered once `a` did not short-circuit: the deciding value is the right-most operand."""
         c = self.blocks[block].get('cond')
-        return Node(self.fn, c) if c is not None else None
+        if c is None:
+            return None
+        n = Node(self.fn, c)
+        while True:
+            s = n.strip()
+            if s.k == 'BinaryOperator' and s.op in ('&&', '||') and self.blocks[block].get('term') != s.i:
+                n = s.children[1]
+                continue
+            return n
 
     def term_node(self, block):
         c = self.blocks[block].get('term')
